@@ -101,3 +101,34 @@ def walk_contains(walk_edges, Q):
         if p < len(Q) and tuple(e) == Q[p]:
             p += 1
     return p == len(Q)
+
+
+def exists_walk_containing_avoiding(H, S, T, C, Q):
+    """Is there an S->T walk that contains C as a subsequence but does NOT contain Q as a subsequence?"""
+    C = [tuple(e) for e in C]
+    Q = [tuple(e) for e in Q]
+    nc, nq = len(C), len(Q)
+    if nq == 0:
+        return False
+
+    def step(aux, e):
+        pc, pq = aux
+        if pc < nc and e == C[pc]:
+            pc += 1
+        if pq < nq and e == Q[pq]:
+            pq += 1
+        if pq == nq:
+            return None
+        return (pc, pq)
+
+    return _bfs(H, S, T, (0, 0), step, lambda aux: aux[0] == nc)
+
+
+def exists_walk_containing(H, S, T, C):
+    C = [tuple(e) for e in C]
+    nc = len(C)
+
+    def step(p, e):
+        return p + 1 if p < nc and e == C[p] else p
+
+    return _bfs(H, S, T, 0, step, lambda p: p == nc)
